@@ -8,10 +8,11 @@ The source of boltons.cacheutils is read with inspect on every run.  Every metho
   * calls of other transformed methods on self (also through bound-method aliases such as
     `setitem = self.__setitem__`, and the implicit protocol calls `self[key]`,
     `self[key] = value` - also inside chained assignments) are delegated with `yield from`;
-  * `with self._lock:` becomes `yield from self._lock.co_acquire(lineno)` + try/finally release,
-    and RLock is replaced by ModelLock (owner = logical thread, depth), whose co_acquire first
-    announces ('want', lineno) and then yields ('blocked', lineno) while another logical
-    thread owns the lock.
+  * `with self._lock:` becomes an announcement `yield ('want', lineno, <lock expression>, cell)`, the
+    binding of the lock object (once, like the with statement: enter and exit act on the same
+    object even if the body rebinds self._lock), `yield from lock.co_acquire(lineno)` (yields
+    ('blocked', ...) while another logical thread owns that object) and try/finally release;
+    RLock is replaced by ModelLock (owner = logical thread, depth).
 A scheduler (run_concurrent) interleaves the coroutines of several logical threads; the schedule
 is (first thread, set of switch points over the numbered choice points at which more than one
 thread is enabled), which the harness keeps symbolic.
@@ -20,6 +21,7 @@ import ast
 import inspect
 import sys
 import threading
+import time
 
 CUR = [0]          # logical thread currently running
 
@@ -30,9 +32,9 @@ class ModelLock:
         self.depth = 0
 
     def co_acquire(self, lineno=0):
-        yield ('want', lineno)
+        # the lock object is already bound: wait for it, take it
         while self.owner is not None and self.owner != CUR[0]:
-            yield ('blocked', lineno)
+            yield ('blocked', lineno, self)
         self.owner = CUR[0]
         self.depth += 1
 
@@ -132,11 +134,26 @@ class Tx(ast.NodeTransformer):
     def visit_With(self, node):
         item = node.items[0].context_expr
         if isinstance(item, ast.Attribute) and _is_self(item.value) and item.attr == '_lock':
+            # like the with statement, evaluate the lock expression once: enter and exit act on the same object
+            # even if the body rebinds self._lock
+            #   cell = [None]
+            #   yield ('want', lineno, lambda: self._lock, cell)     announce; the scheduler may bind the lock object into the cell
+            #   lk = cell[0] or self._lock                           otherwise it is evaluated when the thread runs again
+            #   yield from lk.co_acquire(lineno); try: body; finally: lk.release()
+            tmp = '_tx_lock_%d' % node.lineno
+            cell = '_tx_cell_%d' % node.lineno
+            mk_cell = ast.Assign(targets=[ast.Name(cell, ast.Store())], value=ast.List(elts=[ast.Constant(None)], ctx=ast.Load()))
+            lam = ast.Lambda(args=ast.arguments(posonlyargs=[], args=[], kwonlyargs=[], kw_defaults=[], defaults=[]), body=item)
+            want = ast.Expr(value=ast.Yield(value=ast.Tuple(
+                elts=[ast.Constant('want'), ast.Constant(node.lineno), lam, ast.Name(cell, ast.Load())], ctx=ast.Load())))
+            cell0 = ast.Subscript(value=ast.Name(cell, ast.Load()), slice=ast.Constant(0), ctx=ast.Load())
+            bind = ast.Assign(targets=[ast.Name(tmp, ast.Store())],
+                              value=ast.IfExp(test=ast.Compare(left=cell0, ops=[ast.IsNot()], comparators=[ast.Constant(None)]), body=cell0, orelse=item))
             acq = ast.Expr(value=ast.YieldFrom(value=ast.Call(
-                func=ast.Attribute(value=item, attr='co_acquire', ctx=ast.Load()), args=[ast.Constant(node.lineno)], keywords=[])))
-            rel = ast.Expr(value=ast.Call(func=ast.Attribute(value=item, attr='release', ctx=ast.Load()), args=[], keywords=[]))
+                func=ast.Attribute(value=ast.Name(tmp, ast.Load()), attr='co_acquire', ctx=ast.Load()), args=[ast.Constant(node.lineno)], keywords=[])))
+            rel = ast.Expr(value=ast.Call(func=ast.Attribute(value=ast.Name(tmp, ast.Load()), attr='release', ctx=ast.Load()), args=[], keywords=[]))
             body = self._body(node.body)
-            return [acq, ast.Try(body=body, handlers=[], orelse=[], finalbody=[rel])]
+            return [mk_cell, want, bind, acq, ast.Try(body=body, handlers=[], orelse=[], finalbody=[rel])]
         node.body = self._body(node.body)
         return node
 
@@ -255,7 +272,26 @@ def run_concurrent(lock, gens, first, is_switch, record=None):
         advance(t)
 
     def enabled(t):
-        return (not done[t]) and not (waiting[t] and lock.owner is not None and lock.owner != t)
+        # a waiting thread waits for the lock OBJECT it evaluated (code under test may rebind self._lock).  A thread
+        # that reaches a with-statement while another thread holds the lock is taken to have evaluated the lock
+        # expression and to be blocked inside acquire() on that object from then on; the moment is recorded as its
+        # event for that line, so that the real-thread replay lets it run into the acquire at the same point.
+        if done[t]:
+            return False
+        if not waiting[t]:
+            return True
+        p = pending[t]
+        if p[0] == 'want':
+            lk = p[2]()
+            if lk.owner is not None and lk.owner != t:
+                p[3][0] = lk
+                pending[t] = ('blocked', p[1], lk)
+                if record is not None:
+                    record.append((t, p[1], 'bind'))
+                return False
+            return True
+        lk = p[2]
+        return not (lk.owner is not None and lk.owner != t)
     used = 0
     cur = None
     steps = 0
@@ -294,7 +330,8 @@ def real_thread_replay(module, make_cache, ops, order, timeout=5.0):
     cond = threading.Condition()
     pos = [0]
     res = [None] * len(ops)
-    expected = {t: [ln for (tt, ln) in order if tt == t] for t in range(len(ops))}
+    order = [tuple(e) for e in order]
+    expected = {t: [e[1] for e in order if e[0] == t] for t in range(len(ops))}
     idx = {t: 0 for t in range(len(ops))}
     stuck = []
     fname = module.__file__
@@ -307,6 +344,9 @@ def real_thread_replay(module, make_cache, ops, order, timeout=5.0):
                     if not ok:
                         stuck.append((t, frame.f_lineno, pos[0]))
                         return None
+                    if pos[0] > 0 and len(order[pos[0] - 1]) > 2 and order[pos[0] - 1][0] != t:
+                        # the previous event let another thread run into a blocking acquire(): give it time to get there
+                        time.sleep(0.05)
                     pos[0] += 1
                     idx[t] += 1
                     cond.notify_all()
